@@ -36,7 +36,16 @@ def some_(
         observer: abc.ObserverBase[bool],
         scheduler: abc.SchedulerBase | None = None,
     ):
+        found = False
+
         def on_next(_: _T):
+            nonlocal found
+            if found:
+                # an element that arrives while the answer is being delivered
+                # (re-entrant on_next)
+                return
+
+            found = True
             observer.on_next(True)
             observer.on_completed()
 
